@@ -63,7 +63,10 @@ class State(object):
                 out[k] = x
             else:
                 out[k] = x & y
-        return State(out, self.sym & o.sym)
+        # a ('*',) entry records that SOME path stored into the array at an index the analysis cannot enumerate (a loop filling
+        # mat[3 * q + p]): reads of that array are then undecided, never reported (a report needs positive evidence)
+        may = frozenset(s_ for s_ in (self.sym | o.sym) if s_[1] == ("*",))
+        return State(out, (self.sym & o.sym) | may)
 
 
 class Analyzer(object):
@@ -109,6 +112,8 @@ class Analyzer(object):
         v = st.v.get(decl)
         if v is True or v == ALL:
             return True
+        if self.is_array(decl) and (decl, ("*",), frozenset()) in st.sym:
+            return True          # filled by a loop somewhere before: cannot enumerate the cells, nothing to report
         if v is False or v is None:
             return False
         c = self.cell(decl, idx)
@@ -134,6 +139,7 @@ class Analyzer(object):
             if len(idx) == len(dims):
                 names = frozenset(x.name for i in idx for x in ewalk(i) if x.k == "var")
                 st.sym = st.sym | {(decl, tuple(estr(i) for i in idx), names)}
+            st.sym = st.sym | {(decl, ("*",), frozenset())}
             return
         nv = (v or frozenset()) | {c}
         st.v[decl] = ALL if len(nv) == ncells(dims) else frozenset(nv)
